@@ -301,7 +301,7 @@ func checkC04(c *core.Check) {
 	// two-parameter operations (which failing parameter is named is free)
 	nPairs := 40
 	if thorough {
-		nPairs = 300
+		nPairs = 1500
 	}
 	for k := 0; k < nPairs; k++ {
 		d1, d2 := base[rng.Intn(len(base))], base[rng.Intn(len(base))]
@@ -380,8 +380,12 @@ func checkC04(c *core.Check) {
 				}
 			}
 			if thorough {
-				for k := 0; k < 20; k++ {
-					supplies = append(supplies, []string{classes[rng.Intn(5)], classes[rng.Intn(5)], classes[rng.Intn(5)]})
+				for _, c1 := range classes { // every triple of classes
+					for _, c2 := range classes {
+						for _, c3 := range classes {
+							supplies = append(supplies, []string{c1, c2, c3})
+						}
+					}
 				}
 			}
 			for si, s1 := range supplies {
